@@ -187,6 +187,20 @@ func Delay[V any](f lazy[V]) Seq[V] {
 	}
 }
 
+// Breakable runs body, a Break inside leaves the body (the break of a switch stmt):
+// the stmts following the body run, Continue / Return pass through
+func Breakable[V any](body Seq[V]) Seq[V] {
+	return func(c *co[V], k cont[V]) {
+		body(c, func(t contType, v V) {
+			if t == kBreak {
+				k(kNormal, zero[V]())
+			} else {
+				k(t, v)
+			}
+		})
+	}
+}
+
 func Combine[V any](s1, s2 Seq[V]) Seq[V] {
 	return func(c *co[V], k cont[V]) {
 		vtrace("comb", c, 0)
